@@ -67,15 +67,21 @@ def isPointerField (f : FieldDef) : Bool :=
   | _ => f.req = .optional && f.dflt.isNone
 
 /-- the guard emitted around an OPTIONAL field by genBLengthField and genFastAppendField (identical text):
+case 0 (only when the code writer has it, `cmp`; see `Generated.C10.optBinDefaultCmp*`) an optional binary field
+with a default: `if string(p.F) != string(<default>)`, the `IsSet<F>` of the standard code;
 case 1 `if p.F != nil` (pointer or container type), case 2 `if p.F != <default>`, otherwise no guard -/
-def optWritten (P : Prog) (f : FieldDef) (v : GoVal) : Bool :=
-  if isPointerField f || isContainerType P f.ty then !goEq v .nil
+def optWritten (cmp : Bool) (P : Prog) (f : FieldDef) (v : GoVal) : Bool :=
+  if cmp && decide (catOf P f.ty = Generated.C10.catBinary) && f.dflt.isSome then
+    match f.dflt with
+    | some d => Std.neDefault f.ty v d
+    | none => true
+  else if isPointerField f || isContainerType P f.ty then !goEq v .nil
   else match f.dflt with
     | some d => Std.neDefault f.ty v d
     | none => true
 
 /-- is the field emitted at all -/
-def written (P : Prog) (f : FieldDef) (v : GoVal) : Bool := !(f.req = .optional) || optWritten P f v
+def written (cmp : Bool) (P : Prog) (f : FieldDef) (v : GoVal) : Bool := !(f.req = .optional) || optWritten cmp P f v
 
 /-- insertion into a list sorted by field id -/
 def insertField (x : FieldDef × GoVal) : List (FieldDef × GoVal) → List (FieldDef × GoVal)
@@ -109,17 +115,17 @@ def sumPairsWith (gk gv : GoVal → FRes Nat) : List (GoVal × GoVal) → FRes N
       .ok (a + b + c)
 
 /-- genBLengthField over the sorted fields -/
-def blengthFields (P : Prog) (g : Ty → GoVal → FRes Nat) : List (FieldDef × GoVal) → FRes Nat
+def blengthFields (cmp : Bool) (P : Prog) (g : Ty → GoVal → FRes Nat) : List (FieldDef × GoVal) → FRes Nat
   | [] => .ok 0
   | (f, v) :: r =>
-    if written P f v then do
+    if written cmp P f v then do
       let a ← g f.ty v
-      let b ← blengthFields P g r
+      let b ← blengthFields cmp P g r
       .ok (3 + a + b)
-    else blengthFields P g r
+    else blengthFields cmp P g r
 
 /-- genBLengthAny; the fuel bounds the nesting of the object (`.err` when exhausted or ill-shaped) -/
-def blengthAny (P : Prog) : Nat → Ty → GoVal → FRes Nat
+def blengthAny (cmp : Bool) (P : Prog) : Nat → Ty → GoVal → FRes Nat
   | 0, _, _ => .err
   | fuel+1, ty, v =>
     if 0 < wireSizeOf P ty then .ok (wireSizeOf P ty) else
@@ -131,11 +137,11 @@ def blengthAny (P : Prog) : Nat → Ty → GoVal → FRes Nat
     | .set _, .nil => .ok 5
     | .list e, .list xs =>
         if 0 < wireSizeOf P e then .ok (5 + xs.length * wireSizeOf P e) else do
-        let s ← sumWith (blengthAny P fuel e) xs
+        let s ← sumWith (blengthAny cmp P fuel e) xs
         .ok (5 + s)
     | .set e, .list xs =>
         if 0 < wireSizeOf P e then .ok (5 + xs.length * wireSizeOf P e) else do
-        let s ← sumWith (blengthAny P fuel e) xs
+        let s ← sumWith (blengthAny cmp P fuel e) xs
         .ok (5 + s)
     | .map _ _, .nil => .ok 6
     | .map k w, .map kvs =>
@@ -143,26 +149,27 @@ def blengthAny (P : Prog) : Nat → Ty → GoVal → FRes Nat
         let vsz := wireSizeOf P w
         if 0 < ksz && 0 < vsz then .ok (6 + kvs.length * (ksz + vsz))
         else if 0 < ksz then do
-          let s ← sumWith (blengthAny P fuel w) (kvs.map (·.2))
+          let s ← sumWith (blengthAny cmp P fuel w) (kvs.map (·.2))
           .ok (6 + kvs.length * ksz + s)
         else if 0 < vsz then do
-          let s ← sumWith (blengthAny P fuel k) (kvs.map (·.1))
+          let s ← sumWith (blengthAny cmp P fuel k) (kvs.map (·.1))
           .ok (6 + kvs.length * vsz + s)
         else do
-          let s ← sumPairsWith (blengthAny P fuel k) (blengthAny P fuel w) kvs
+          let s ← sumPairsWith (blengthAny cmp P fuel k) (blengthAny cmp P fuel w) kvs
           .ok (6 + s)
     | .struct _, .nil => .ok 1
     | .struct i, .strct fs =>
         match P.struct? i with
         | some sd =>
             if sd.fields.length != fs.length then .err else do
-            let s ← blengthFields P (blengthAny P fuel) (sortFields sd.fields fs)
+            let s ← blengthFields cmp P (blengthAny cmp P fuel) (sortFields sd.fields fs)
             .ok (s + 1)
         | none => .err
     | _, _ => .err
 
-/-- generated `BLength()` -/
-def blength (P : Prog) (fuel sidx : Nat) (obj : GoVal) : FRes Nat := blengthAny P fuel (.struct sidx) obj
+/-- generated `BLength()` of the current generator -/
+def blength (P : Prog) (fuel sidx : Nat) (obj : GoVal) : FRes Nat :=
+  blengthAny Generated.C10.optBinDefaultCmpBLength P fuel (.struct sidx) obj
 
 /-! ### FastAppend -/
 
@@ -182,17 +189,17 @@ def concatPairsWith (gk gv : GoVal → FRes Bytes) : List (GoVal × GoVal) → F
       .ok (a ++ b ++ c)
 
 /-- genFastAppendField over the sorted fields: `append(b, wiretype, byte(id>>8), byte(id))` + value -/
-def fastFields (P : Prog) (g : Ty → GoVal → FRes Bytes) : List (FieldDef × GoVal) → FRes Bytes
+def fastFields (cmp : Bool) (P : Prog) (g : Ty → GoVal → FRes Bytes) : List (FieldDef × GoVal) → FRes Bytes
   | [] => .ok []
   | (f, v) :: r =>
-    if written P f v then do
+    if written cmp P f v then do
       let a ← g f.ty v
-      let b ← fastFields P g r
+      let b ← fastFields cmp P g r
       .ok ([wireTypeOf P f.ty] ++ be 2 (pat 16 f.id) ++ a ++ b)
-    else fastFields P g r
+    else fastFields cmp P g r
 
 /-- genFastAppendAny -/
-def fastAny (P : Prog) : Nat → Ty → GoVal → FRes Bytes
+def fastAny (cmp : Bool) (P : Prog) : Nat → Ty → GoVal → FRes Bytes
   | 0, _, _ => .err
   | fuel+1, ty, v =>
     match ty, v with
@@ -209,27 +216,31 @@ def fastAny (P : Prog) : Nat → Ty → GoVal → FRes Bytes
     | .list e, .nil => .ok ([gopkgTypeOf P e] ++ be 4 0)
     | .set e, .nil => .ok ([gopkgTypeOf P e] ++ be 4 0)
     | .list e, .list xs => do
-        let s ← concatWith (fastAny P fuel e) xs
+        let s ← concatWith (fastAny cmp P fuel e) xs
         .ok ([gopkgTypeOf P e] ++ be 4 xs.length ++ s)
     | .set e, .list xs => do
-        let s ← concatWith (fastAny P fuel e) xs
+        let s ← concatWith (fastAny cmp P fuel e) xs
         .ok ([gopkgTypeOf P e] ++ be 4 xs.length ++ s)
     | .map k w, .nil => .ok ([gopkgTypeOf P k, gopkgTypeOf P w] ++ be 4 0)
     | .map k w, .map kvs => do
-        let s ← concatPairsWith (fastAny P fuel k) (fastAny P fuel w) kvs
+        let s ← concatPairsWith (fastAny cmp P fuel k) (fastAny cmp P fuel w) kvs
         .ok ([gopkgTypeOf P k, gopkgTypeOf P w] ++ be 4 kvs.length ++ s)
     | .struct _, .nil => .ok [0]
     | .struct i, .strct fs =>
         match P.struct? i with
         | some sd =>
             if sd.fields.length != fs.length then .err else do
-            let s ← fastFields P (fastAny P fuel) (sortFields sd.fields fs)
+            let s ← fastFields cmp P (fastAny cmp P fuel) (sortFields sd.fields fs)
             .ok (s ++ [0])
         | none => .err
     | _, _ => .err
 
-/-- generated `FastAppend(nil)` -/
-def fastWrite (P : Prog) (fuel sidx : Nat) (obj : GoVal) : FRes Bytes := fastAny P fuel (.struct sidx) obj
+/-- generated `FastAppend(nil)`, for either variant of the optional-binary-default guard -/
+def fastWriteG (cmp : Bool) (P : Prog) (fuel sidx : Nat) (obj : GoVal) : FRes Bytes := fastAny cmp P fuel (.struct sidx) obj
+
+/-- generated `FastAppend(nil)` of the current generator -/
+def fastWrite (P : Prog) (fuel sidx : Nat) (obj : GoVal) : FRes Bytes :=
+  fastWriteG Generated.C10.optBinDefaultCmpFastAppend P fuel sidx obj
 
 /-- generated `FastWrite(buf)` with `len(buf) = BLength()`: `FastAppend(b[:0])`, panic if it outgrew `b` -/
 def fastWriteInto (P : Prog) (fuel sidx : Nat) (obj : GoVal) : FRes Bytes := do
@@ -482,7 +493,25 @@ def fastReadWith (skip : Nat → Bytes → FRes Nat) (P : Prog) (sidx : Nat) (bs
   let (v, r) ← fastReadTyWith skip P (bs.length + 1) (.struct sidx) bs
   .ok (v, bs.length - r.length)
 
-/-- FastRead linked with gopkg v0.2.0 -/
-def fastRead (P : Prog) (sidx : Nat) (bs : Bytes) : FRes (GoVal × Nat) := fastReadWith Gopkg.skip P sidx bs
+/-- the skip path of the `default:` branch as the code writer emits it: optionally `if ftyp < 0 {error}` before the
+call, optionally the call wrapped in a function literal whose deferred `recover()` turns a panic into an error,
+optionally `if off > len(b) {error}` after `off += l`; with no guard it is gopkg's Skip itself -/
+def guardedSkip (negGuard recov lenGuard : Bool) (t : Nat) (bs : Bytes) : FRes Nat :=
+  if negGuard && Gopkg.neg t then .err else
+  match Gopkg.skip t bs with
+  | .panic w => if recov then .err else .panic w
+  | .err => .err
+  | .ok l => if lenGuard && decide (l > bs.length) then .err else .ok l
+
+/-- FastRead of the code written by a generator with the given guards, linked with gopkg v0.2.0 -/
+def fastReadG (negGuard recov lenGuard : Bool) (P : Prog) (sidx : Nat) (bs : Bytes) : FRes (GoVal × Nat) :=
+  fastReadWith (guardedSkip negGuard recov lenGuard) P sidx bs
+
+/-- the skip path of the current generator -/
+def curSkip : Nat → Bytes → FRes Nat :=
+  guardedSkip Generated.C10.guardNegativeType Generated.C10.guardRecover Generated.C10.guardSkipLength
+
+/-- FastRead of the current generator -/
+def fastRead (P : Prog) (sidx : Nat) (bs : Bytes) : FRes (GoVal × Nat) := fastReadWith curSkip P sidx bs
 
 end Gen.Fast
